@@ -16,6 +16,8 @@ printf '[package]\nname = "probes"\nversion = "0.1.0"\nedition = "2021"\n[depend
 cp -n $R/Cargo.lock $V/build/probes/Cargo.lock 2>/dev/null || true
 (cd $V/build/probes && CARGO_TARGET_DIR=$V/build/expand_target cargo rustc --offline -q --lib -- -Zunpretty=expanded > $V/build/expand/probes.rs.tmp 2>$V/build/expand/probes.err) || { echo 'rs2lean: macro expansion of the probe crate failed'; grep -E "^error" -A 6 $V/build/expand/probes.err | head -30; exit 3; }
 mv $V/build/expand/probes.rs.tmp $V/build/expand/probes.rs
+# -Zunpretty=expanded stops before type checking: the probes must also be a well-typed program against $R's macros
+(cd $V/build/probes && CARGO_TARGET_DIR=$V/build/expand_target cargo check --offline -q --lib 2>$V/build/expand/probes_check.err) || { echo 'rs2lean: the probe crate does not compile against the current macros'; grep -E "^error" -A 6 $V/build/expand/probes_check.err | head -30; exit 3; }
 (cd $V/translator && CARGO_TARGET_DIR=$V/build/translator cargo build --offline -q)
 $V/build/translator/debug/rs2lean --src konst_kernel=$V/build/expand/konst_kernel.rs --src konst=$V/build/expand/konst.rs --src probes=$V/build/expand/probes.rs --targets $V/translator/targets.txt --out $V/lean/KonstVerif/Extracted/Gen
 # the failing-input search program follows the regenerated signatures (built and run only when an obligation breaks)
